@@ -76,13 +76,34 @@ package pm
 //@ loop 2 exit sp >= len(src)
 //@ loop 3 invariant 0 <= i && 0 <= sp && Inv_md(m) && (len(ms) > 0 ==> m == ms[0] && len(m.captures) >= old(len(ms[0].captures))) && 0 <= pc && pc < len(insts) && insts[pc].OpCode == 8 && offset(capture) >= 0
 
-// Find (parser, compiler, scan loop) is not verified as a whole; what its callers in stringlib.go rely on is assumed:
-// pattern errors come back as err (the deferred handler converts *Error panics), every match carries the whole-match
-// pair plus one pair per capture, and closed captures lie inside the subject.
-//@ trusted Find [C14]
-//@ logged
-//@ noraise
-//@ ensures  forall i int :: 0 <= i && i < len(matches) ==> matches[i] != nil && Inv_md(matches[i]) && len(matches[i].captures) >= 2 && len(matches[i].captures) % 2 == 0 && matches[i].captures[0] % 2 == 0
-//@ ensures  forall i int, k int :: 0 <= i && i < len(matches) && 0 <= k && k + 1 < len(matches[i].captures) && k % 2 == 0 && matches[i].captures[k] % 2 == 0 ==> matches[i].captures[k] / 2 <= matches[i].captures[k+1] / 2 && matches[i].captures[k+1] / 2 <= len(src)
-//@ ensures  offset(matches) == 0 && (limit > 0 ==> len(matches) <= limit)
+// Find: the scan loop is verified in place (leftmost-first scan: the matcher is tried at sp; on success the match is
+// appended and the scan continues at the end of the match, or one byte further when the match was empty; on failure one
+// byte further; it stops after `limit` matches or after the first attempt of an anchored pattern). What its callers in
+// stringlib.go rely on about the capture vectors comes from the parser/compiler/matcher together and is only ASSUMED
+// (assumes clauses): every match carries the whole-match pair plus one pair per capture, closed captures lie inside the
+// subject. parsePattern / compilePattern are opaque here (they may raise *Error, which the deferred handler returns as err).
+// the recursive-descent pattern parser and the compiler are not verified; they touch only the scanner and fresh objects,
+// leave by *Error panics on malformed patterns, and (ASSUMED, the "compilePattern establishes program validity" gap named
+// in the claim) produce a valid program
+//@ trusted parsePattern [C14]
+//@ may-panic type Error
+//@ ensures  result != nil
+//@ modifies type scanner.*, type scannerState.*
+
+//@ trusted compilePattern [C14]
+//@ may-panic type Error
+//@ ensures  Inv_prog(result)
 //@ modifies nothing
+
+//@ func Find [C14]
+//@ logged
+//@ requires offset >= 0 && offset(src) == 0
+//@ may-panic type Error
+//@ assumes  forall i int :: 0 <= i && i < len(matches) ==> matches[i] != nil && Inv_md(matches[i]) && len(matches[i].captures) >= 2 && len(matches[i].captures) % 2 == 0 && matches[i].captures[0] % 2 == 0
+//@ assumes  forall i int, k int :: 0 <= i && i < len(matches) && 0 <= k && k + 1 < len(matches[i].captures) && k % 2 == 0 && matches[i].captures[k] % 2 == 0 ==> matches[i].captures[k] / 2 <= matches[i].captures[k+1] / 2 && matches[i].captures[k+1] / 2 <= len(src)
+//@ assumes  offset(matches) == 0 && (limit > 0 ==> len(matches) <= limit)
+//@ let@"ok, nsp, ms := recursiveVM" sp0 = sp
+//@ let@"ok, nsp, ms := recursiveVM" n0 = len(matches)
+//@ assert@"if len(matches) == limit || pat.MustHead" sp == ite(ok && sp0 + 1 < nsp, nsp, sp0 + 1) && len(matches) == n0 + ite(ok, 1, 0) && (ok ==> matches[n0] == ms)
+//@ modifies type MatchData.captures, elems(uint32), type scanner.*, type scannerState.*
+//@ loop 1 invariant 0 <= sp && len(insts) >= 1 && Inv_prog(insts) && pat != nil && offset(matches) == 0 && (arrid(matches) == 0 || fresh(matches))
